@@ -163,6 +163,75 @@ def make_predictor(hs, style):
     return lambda X: arr
 
 
+# ------------------------------------------------------------------ a moment object may have a PREVIOUS LIFE
+# Moment objects are re-loadable (`load_data` may be called again, and the mitigators do call it on user-supplied objects).
+# With probability ~0.3 the object under test has first been loaded on an AUXILIARY data set of a different length and
+# group set and queried (gamma, signed_weights, project_lambda, bound) before the `load_data` of the case's own data.
+# Everything the checks assert is about the data loaded LAST, so the judges are unchanged; state that survives a reload
+# (a cache that `load_data` does not clear, seeded change C07a) now produces a concrete failing input.
+HISTORY_P = 0.3
+NO_HISTORY_KINDS = ("cfg", "errcfg", "loss")
+
+
+def gen_history(rng, case):
+    n0 = len(case.get("y") or [])
+    n = rng.choice([k for k in (3, 4, 5, 7, 9) if k != n0])
+    groups = rng.choice([["p", "q"], ["p", "q", "r"], ["q", "zz"]])
+    g = [groups[i % len(groups)] for i in range(n)]
+    rng.shuffle(g)
+    y = [str(i % 2) for i in range(n)]
+    rng.shuffle(y)
+    c = None
+    if case.get("c") is not None:
+        c = [rng.choice(["s", "t"]) for _ in range(n)]
+    return {"kind": "reloaded", "y": y, "g": g, "c": c, "h": [str(F(rng.randint(0, 4), 4)) for _ in range(n)],
+            "lam": [str(F(rng.randint(0, 6), 2)) for _ in range(12)]}
+
+
+def with_history(gen, rng):
+    """wrap a case generator: attach a previous life to ~30 % of the cases that load data into a moment"""
+    for case in gen:
+        if isinstance(case, dict) and case.get("kind") not in NO_HISTORY_KINDS and "history" not in case \
+                and rng.random() < HISTORY_P:
+            case = dict(case, history=gen_history(rng, case))
+        yield case
+
+
+def previous_life(obj, case):
+    """run the previous life of `case` (if it has one) on the moment object `obj`; returns `obj`"""
+    h = case.get("history") if isinstance(case, dict) else None
+    if not h or h.get("kind") != "reloaded":
+        return obj
+    import inspect
+    n = len(h["y"])
+    X = np.arange(100, 100 + n, dtype=float).reshape(-1, 1)
+    kw = {"sensitive_features": list(h["g"])}
+    if h.get("c") is not None and "control_features" in inspect.signature(obj.load_data).parameters:
+        kw["control_features"] = list(h["c"])
+    obj.load_data(X, [int(v) for v in h["y"]], **kw)
+    arr = np.array([float(F(v)) for v in h["h"]])
+    obj.gamma(lambda X_: arr)
+    idx = obj.index
+    lam = pd.Series([float(F(h["lam"][i % len(h["lam"])])) for i in range(len(idx))], index=idx)
+    if type(obj).__name__ == "ErrorRate":
+        obj.signed_weights()
+        obj.signed_weights(lam)
+    else:
+        obj.signed_weights(lam)
+    for call in ((lambda: obj.project_lambda(lam)) if len(idx) else None, obj.bound):
+        if call is not None:
+            try:
+                call()
+            except NotImplementedError:     # the abstract default of `Moment` (ErrorRate has no bound())
+                pass
+    return obj
+
+
+def history_tag(case):
+    h = case.get("history") if isinstance(case, dict) else None
+    return "history=reloaded" if h and h.get("kind") == "reloaded" else "history=fresh"
+
+
 def make_moment(case):
     import fairlearn.reductions as red
     cls = getattr(red, MOMENTS[case["moment"]])
@@ -172,7 +241,7 @@ def make_moment(case):
     if case["rb"] is not None:
         kw["ratio_bound"] = fl(case["rb"])
         kw["ratio_bound_slack"] = fl(case["slack"])
-    return cls(**kw)
+    return previous_life(cls(**kw), case)
 
 
 def index_keys(index):
@@ -284,6 +353,9 @@ class CHECK(Check):
 
     # ------------------------------------------------------------------ generation
     def generate(self, rng, tier):
+        return with_history(self._generate(rng, tier), rng)
+
+    def _generate(self, rng, tier):
         while True:
             r = rng.random()
             if r < 0.76:
@@ -427,7 +499,7 @@ class CHECK(Check):
                    "arr": [float(v) for v in np.asarray(loss.eval(ya, pa)).reshape(-1)],
                    "ser": [float(v) for v in np.asarray(loss.eval(pd.Series(ya), pd.Series(pa))).reshape(-1)]}
             if len(case["y"]) >= 2:     # one row is squeezed to 0-d by the input validation
-                m = red.BoundedGroupLoss(loss, upper_bound=0.5)
+                m = previous_life(red.BoundedGroupLoss(loss, upper_bound=0.5), case)
                 X = pd.DataFrame({"x": list(range(len(ya)))})
                 m.load_data(X, pd.Series(ya), sensitive_features=pd.Series(case["g"]))
                 gam = m.gamma(lambda X: pa)
@@ -466,7 +538,7 @@ class CHECK(Check):
             lo, hi = fl(case["lo"]), fl(case["hi"])
             loss = {"square": lambda: red.SquareLoss(lo, hi), "absolute": lambda: red.AbsoluteLoss(lo, hi),
                     "zeroone": lambda: red.ZeroOneLoss()}[case["loss"]]()
-            m = red.BoundedGroupLoss(loss, upper_bound=fl(case["ub"]))
+            m = previous_life(red.BoundedGroupLoss(loss, upper_bound=fl(case["ub"])), case)
             m.load_data(X, y, sensitive_features=sf)
             pred = make_predictor(case["h"], "flat")
             gam = m.gamma(pred)
@@ -485,10 +557,10 @@ class CHECK(Check):
             return out
         if kind == "err":
             if case["costs"] == "default":
-                m = red.ErrorRate()
+                m = previous_life(red.ErrorRate(), case)
             else:
                 try:
-                    m = red.ErrorRate(costs={"fp": fl(case["fp"]), "fn": fl(case["fn"])})
+                    m = previous_life(red.ErrorRate(costs={"fp": fl(case["fp"]), "fn": fl(case["fn"])}), case)
                 except ValueError:
                     return {"cfg": ["exc", "ValueError"]}
             m.load_data(X, y, sensitive_features=sf)
@@ -828,6 +900,8 @@ class CHECK(Check):
     def signature(self, case, o):
         kind = case["kind"]
         tags = [f"kind={kind}"]
+        if kind not in NO_HISTORY_KINDS:
+            tags.append(history_tag(case))
         nontriv = True
         if kind == "parity":
             n = len(case["y"])
